@@ -70,6 +70,7 @@ package server
 //@   requires s.member != nil && s.member.member != nil && s.member.member.MemberId != 0 && (s.member.leadership == nil || leaseTyped(s.member.leadership)) && (s.member.leader.v == nil || typeisptr(s.member.leader.v, pdpb.Member)) && ErrNotLeader != nil
 //@   ensures [cluster-id] result == nil ==> ite(header == nil, 0, header.ClusterId) == s.clusterID
 //@   ensures [serving-leader] result == nil ==> s.isServing != 0 && lastok("Check") && last("Check") > old(evclock[0])
+//@   ensures [events] last("LoadGCSafePoint") == old(last("LoadGCSafePoint"))
 //@   ensures [leader-is-me] result == nil ==> s.member.leader.v != nil && asptr(s.member.leader.v, pdpb.Member).MemberId == s.member.member.MemberId
 //@   modifies ghost evres
 
@@ -92,4 +93,17 @@ package server
 //@   ensures [resp0] r1 == nil && r0 != nil && last("LoadGCSafePoint") > old(evclock[0]) ==> r0.NewSafePoint >= old(gcStored())
 //@   ensures [resp1] r1 == nil && r0 != nil && last("LoadGCSafePoint") > old(evclock[0]) ==> r0.NewSafePoint >= request.SafePoint
 //@   ensures [resp2] r1 == nil && r0 != nil && last("LoadGCSafePoint") > old(evclock[0]) ==> r0.NewSafePoint <= gcStored()
+//@   modifies *
+
+// Service safe points: a registration is removed when its TTL is not positive, recorded only when TTL > 0 and
+// not below the current minimum, with an expiry of now+TTL saturating at MaxInt64 (no wrap-around).
+//@ havoc github.com/tikv/pd/server/tso::(*AllocatorManager).HandleTSORequest, github.com/tikv/pd/server/core::(*Storage).LoadMinServiceGCSafePoint
+//@ func (*Server).UpdateServiceGCSafePoint
+//@   props C15
+//@   requires request != nil && reqOK(s) && s.storage != nil && s.cluster != nil
+//@   at RemoveServiceGCSafePoint 1 assert [only-nonpositive-ttl] request.TTL <= 0 && arg0 == str(request.ServiceId)
+//@   at SaveServiceGCSafePoint 1 assert [positive-ttl] request.TTL > 0
+//@   at SaveServiceGCSafePoint 1 assert [not-below-min] request.SafePoint >= min.SafePoint
+//@   at SaveServiceGCSafePoint 1 assert [identity] ssp.SafePoint == request.SafePoint && ssp.ServiceID == str(request.ServiceId)
+//@   at SaveServiceGCSafePoint 1 assert [expiry-saturates] unixsec(now) >= 0 ==> ssp.ExpiredAt == ite(unixsec(now) + request.TTL >= MaxInt64, MaxInt64, unixsec(now) + request.TTL)
 //@   modifies *
